@@ -272,13 +272,20 @@ func (c *Ctx) checkTxBracket(b txBegin) {
 	var bads []bad
 	nReturns := 0
 	seenRet := map[*ssa.Return]bool{}
-	walk := func(on func(ssa.Instruction, core.NilFacts)) core.NilWalkResult {
-		// when the Begin error is tested directly (not through a captured cell) start on its success edge
-		gBegin := core.NilGuard("Begin err==nil", errResultOf(b.call, b.errIx), true)
-		if pe, cnt := core.PassEdges(fn, gBegin); cnt[0] > 0 {
-			return core.NilWalk(fn, pe, nil, isEnd, on)
-		}
-		return core.NilWalkAfter(fn, b.call, nil, isEnd, on)
+	walk := func(on func(ssa.Instruction, core.NilFacts)) (res core.NilWalkResult) {
+		// function literals called directly are entered (a local `exec := func(q string) bool { _, err =
+		// tx.Exec(q); return err == nil }` writes the error variable and reports its outcome)
+		onlyLiterals := func(g *ssa.Function) bool { return g.Parent() == nil }
+		core.WalkDeep(2, onlyLiterals, func() {
+			// when the Begin error is tested directly (not through a captured cell) start on its success edge
+			gBegin := core.NilGuard("Begin err==nil", errResultOf(b.call, b.errIx), true)
+			if pe, cnt := core.PassEdges(fn, gBegin); cnt[0] > 0 {
+				res = core.NilWalk(fn, pe, nil, isEnd, on)
+				return
+			}
+			res = core.NilWalkAfter(fn, b.call, nil, isEnd, on)
+		})
+		return
 	}
 	res := walk(func(in ssa.Instruction, f core.NilFacts) {
 		ret, ok := in.(*ssa.Return)
@@ -450,37 +457,39 @@ func (c *Ctx) checkTxErrorsConsumed(b txBegin, isEnd func(ssa.Instruction) bool,
 		return false, false
 	}
 	defer func() { core.ExtraNilness = nil }()
-	core.NilWalkAfter(fn, b.call, nil, isEnd, func(in ssa.Instruction, f core.NilFacts) {
-		st, ok := in.(*ssa.Store)
-		if !ok || st.Addr != ssa.Value(cell) {
-			return
-		}
-		if errResultOf(b.call, b.errIx)(st.Val) {
-			return // the assignment of Begin's own error
-		}
-		n, known := f.CellFact(cell)
-		if known && n {
-			return
-		}
-		if known && !n {
-			// overwriting a known non-nil error: allowed only when the new value is itself non-nil
-			// (translation of the error) or the old value was compared with a sentinel (handled).
-			if k2, n2 := core.Nilness(st.Val, f); k2 && !n2 {
+	core.WalkDeep(2, func(g *ssa.Function) bool { return g.Parent() == nil }, func() {
+		core.NilWalkAfter(fn, b.call, nil, isEnd, func(in ssa.Instruction, f core.NilFacts) {
+			st, ok := in.(*ssa.Store)
+			if !ok || (st.Addr != ssa.Value(cell) && core.Strip(st.Addr) != ssa.Value(cell)) {
 				return
 			}
-			if cellComparedWithSentinel(fn, cell) {
+			if errResultOf(b.call, b.errIx)(st.Val) {
+				return // the assignment of Begin's own error
+			}
+			n, known := f.CellFact(cell)
+			if known && n {
 				return
 			}
-		}
-		if !known {
-			// unknown: the cell was assigned and not yet tested
-			if cellComparedWithSentinel(fn, cell) && false {
-				return
+			if known && !n {
+				// overwriting a known non-nil error: allowed only when the new value is itself non-nil
+				// (translation of the error) or the old value was compared with a sentinel (handled).
+				if k2, n2 := core.Nilness(st.Val, f); k2 && !n2 {
+					return
+				}
+				if cellComparedWithSentinel(fn, cell) {
+					return
+				}
 			}
-		}
-		if lost == nil {
-			lost = in
-		}
+			if !known {
+				// unknown: the cell was assigned and not yet tested
+				if cellComparedWithSentinel(fn, cell) && false {
+					return
+				}
+			}
+			if lost == nil {
+				lost = in
+			}
+		})
 	})
 	if lost != nil {
 		r.Fail("C18.3b-pending-error-overwritten", name+": error variable reassigned while it may hold an unreported error", c.pos(lost), "a failure recorded in the rollback error variable can be overwritten (e.g. by a later successful call) before it is tested: partial write would be committed")
